@@ -518,7 +518,7 @@ def execute(spec: Dict[str, Any], ctx: Ctx) -> None:
     res = run_cli(argv, stdin, fs)
     produced = fs.files.get("out.json", b"") if plan["out"] == "file" else res.stdout
     ctx.steps += 1
-    ctx.log.add("invoke", " ".join(argv), "status", res.status, "out", len(produced), "err", len(res.stderr), "escaped", res.escaped or "-")
+    ctx.log.add("invoke", " ".join(argv), "status", res.status, "out", len(produced), "err", "traceback" if "Traceback (most recent call last)" in res.stderr else len(res.stderr), "escaped", res.escaped or "-")
 
     fk = ",".join(sorted(set(fired))) or "-"
     opt_sig = ",".join(sorted(plan["gopts"] + plan["sopts"])) or "-"
